@@ -227,6 +227,42 @@ theorem end_to_end_before_dce (i : PipeIn) (A : Prog) (hA : pipeline i = some A)
   obtain ⟨m1, hm1⟩ := hcompile m0 eager (by rw [e0]; exact hdef)
   exact ⟨m1, by rw [hm1, e0]⟩
 
+/-! ## Core → Go without the `hcompile` hypothesis (back end: worker gocomp's theorem) -/
+
+/-- the fragment of `core_to_go_preserves`: `InPipeFragment` ∧ the back end's `fragGo` (`main` and
+    everything it calls in `GoFrag.closedOK`, the hypothesis of `GoCompileProps.compile_preserves_run`,
+    evaluated on the composite's own annotated ANF) — ONE decidable predicate (`Model/Pipeline.lean`) -/
+def InE2EFragment (i : E2EIn) : Prop := inE2EFragment i = true
+
+instance (i : E2EIn) : Decidable (InE2EFragment i) := by
+  unfold InE2EFragment; infer_instance
+
+/-- **core_to_go_preserves.**  `compileGoPre i` is the whole model pipeline up to (not including)
+    dead-code elimination: `mono`, `lift`, `anf`, re-annotation, `go_file` without its last step.
+    For every Core program in `InE2EFragment`, every definite `Sem` run of `main` (normal end or
+    panic; stdout, status, extern events) is the `Go.Sem` outcome of the compiled file for some fuel,
+    under either `go` schedule.  No hypothesis besides the decidable fragment: the `CompileSim`
+    parameter of `end_to_end_before_dce` is discharged by `compile_preserves_run`. -/
+theorem core_to_go_preserves (i : E2EIn) (G : Goml.Go.GFile) (hG : compileGoPre i = some G) (hfrag : InE2EFragment i)
+    (fuel : Nat) (eager : Bool) (hdef : Definite (run fuel i.pipe.prog "main" eager)) :
+    ∃ m, Goml.Go.runGo m G "main" eager = run fuel i.pipe.prog "main" eager := by
+  unfold InE2EFragment inE2EFragment at hfrag
+  simp only [Bool.and_eq_true] at hfrag
+  obtain ⟨hpipe, hback⟩ := hfrag
+  cases hb : backStages i with
+  | none => rw [hb] at hback; cases hback
+  | some b =>
+    rw [hb] at hback
+    simp only at hback
+    have hspec := backStages_spec hb
+    have hA : pipeline i.pipe = some b.mid.anf := by simp [pipeline, hspec.1]
+    have hGb : G = b.pre := by
+      simp only [compileGoPre, hb, Option.map_some, Option.some.injEq] at hG
+      exact hG.symm
+    subst hGb
+    exact end_to_end_before_dce i.pipe b.mid.anf hA hpipe (fun _ => b.pre) (compileSim_of_fragGo hb hback)
+      fuel eager hdef
+
 /-! ## non-vacuity: three real Core dumps (closure + generic + match; `Lemmas/PipeExamples.lean`) -/
 section Examples
 open Examples
@@ -255,6 +291,20 @@ example : (pipeline ex2).map (fun A => obs (run 400 A)) = some ("3\n", "panic:in
 example : InPipeFragment ex3 := by decide +kernel
 example : obs (run 200 ex3.prog) = ("box43\n", "ok", []) := by decide +kernel
 example : (pipeline ex3).map (fun A => obs (run 400 A)) = some ("box43\n", "ok", []) := by decide +kernel
+
+/-- `corpus/C01pipe/e2e-closure-generic-struct-panic.gom` (real Core dump + real `GlobalGoEnv` dump):
+    a closure capturing the result of a generic call, a struct, printing, then a division by zero —
+    inside the END-TO-END fragment: `core_to_go_preserves` speaks about it -/
+example : InE2EFragment e2e4 := by decide +kernel
+example : obs (run 200 e2e4.pipe.prog) = ("b15\n", "panic:integer divide by zero", []) := by decide +kernel
+example : ∃ G, compileGoPre e2e4 = some G ∧ ∃ m, Goml.Go.runGo m G "main" true = run 200 e2e4.pipe.prog := by
+  cases h : compileGoPre e2e4 with
+  | none => exact absurd h (by decide +kernel)
+  | some G =>
+    exact ⟨G, rfl, core_to_go_preserves e2e4 G h (by decide +kernel) 200 true
+      (Or.inr ⟨"integer divide by zero", by decide +kernel⟩)⟩
+/-- the earlier examples use enums / `Ref`, which the back end's fragment does not cover yet -/
+example : ¬ InE2EFragment { pipe := ex1 } := by decide +kernel
 
 /-- the theorem applied: the ANF program of example 1 prints what its Core program prints -/
 example : ∃ A, pipeline ex1 = some A ∧ ∃ m0, ∀ m, m0 ≤ m → run m A = run 100 ex1.prog := by
